@@ -129,3 +129,56 @@ pub fn check_lookup_constraints<F: RichField + Extendable<D>, const D: usize>(
         deltas,
     )
 }
+
+/// `fri::proof::CompressedFriProof::decompress` with the query indices and the inferred elements
+/// given explicitly (the other challenges are not read by `decompress`).
+pub fn fri_decompress<F: RichField + Extendable<D>, H: Hasher<F>, const D: usize>(
+    proof: crate::fri::proof::CompressedFriProof<F, H, D>,
+    fri_query_indices: Vec<usize>,
+    fri_inferred_elements: Vec<F::Extension>,
+    params: &crate::fri::FriParams,
+) -> crate::fri::proof::FriProof<F, H, D> {
+    use crate::field::types::Field;
+    let challenges = ProofChallenges::<F, D> {
+        plonk_betas: Vec::new(),
+        plonk_gammas: Vec::new(),
+        plonk_alphas: Vec::new(),
+        plonk_deltas: Vec::new(),
+        plonk_zeta: F::Extension::ZERO,
+        fri_challenges: crate::fri::proof::FriChallenges {
+            fri_alpha: F::Extension::ZERO,
+            fri_betas: Vec::new(),
+            fri_pow_response: F::ZERO,
+            fri_query_indices,
+        },
+    };
+    proof.decompress(
+        &challenges,
+        crate::plonk::proof::FriInferredElements(fri_inferred_elements),
+        params,
+    )
+}
+
+/// `CompressedProofWithPublicInputs::get_inferred_elements` (the content of `FriInferredElements`)
+pub fn get_inferred_elements<F: RichField + Extendable<D>, C: GenericConfig<D, F = F>, const D: usize>(
+    proof: &crate::plonk::proof::CompressedProofWithPublicInputs<F, C, D>,
+    challenges: &ProofChallenges<F, D>,
+    common_data: &CommonCircuitData<F, D>,
+) -> Vec<F::Extension> {
+    proof.get_inferred_elements(challenges, common_data).0
+}
+
+/// `CommonCircuitData::get_fri_instance`
+pub fn get_fri_instance<F: RichField + Extendable<D>, const D: usize>(
+    common_data: &CommonCircuitData<F, D>,
+    zeta: F::Extension,
+) -> crate::fri::structure::FriInstanceInfo<F, D> {
+    common_data.get_fri_instance(zeta)
+}
+
+/// `OpeningSet::to_fri_openings`
+pub fn to_fri_openings<F: RichField + Extendable<D>, const D: usize>(
+    openings: &crate::plonk::proof::OpeningSet<F, D>,
+) -> crate::fri::structure::FriOpenings<F, D> {
+    openings.to_fri_openings()
+}
